@@ -28,7 +28,7 @@ type c07Query struct {
 }
 
 func runC07(r *Run) {
-	r.Result.Rule = "scenario = 1..6 concurrently outstanding queries (same and different destinations) + a stream of injected datagrams: genuine reply, adjacent/prefix/extended/empty t, right t from other port / other IP / v4-mapped form, duplicates, replays after completion, y in {r,e,junk,absent}; each datagram carries a unique marker so the completed query identifies its datagram; + give-up histories: a query whose datagram is held in the socket write is cancelled (or its write fails) with its genuine reply arriving before/after the cancellation, then a later query that nobody answers must stay pending and complete only with its own reply; non-trivial = scenario with >= 2 outstanding queries and >= 1 near-miss datagram"
+	r.Result.Rule = "scenario = 1..6 concurrently outstanding queries (same and different destinations) + a stream of injected datagrams: genuine reply, adjacent/prefix/extended/empty t, right t from other port / other IP / v4-mapped form, duplicates, replays after completion, y in {r,e,junk,absent}; each datagram carries a unique marker so the completed query identifies its datagram; + give-up histories: a query whose datagram is held in the socket write is cancelled (or its write fails) with its genuine reply arriving before/after the cancellation, then a later query that nobody answers must stay pending and complete only with its own reply; + bursts queued while the node is inside its query hook (large genuine reply, junk, equally large response under the same transaction ID from another address); non-trivial = scenario with >= 2 outstanding queries and >= 1 near-miss datagram"
 	nScen := r.n(150, 3000)
 	for sc := 0; sc < nScen && !r.c14Full(); sc++ {
 		r.c07Scenario(sc)
